@@ -144,8 +144,13 @@ def _playback(unit, S, env, h):
     except subprocess.TimeoutExpired:
         return {'values': None, 'test': None}
     out = p.stdout
-    m = re.search(r'```\n(.*?)```', out, re.S)
-    test = m.group(1) if m else None
+    blocks = re.findall(r'```\n(.*?)```', out, re.S)
+    parts = []
+    for b in blocks:
+        parts += [t for t in re.split(r'(?=/// Test generated for harness)', b) if t.strip()]
+    # one test per satisfied cover and one per failed check: keep the one of a failed check
+    fails = [t for t in parts if not re.search(r'/// Check for `cover`', t)]
+    test = (fails or parts or [None])[0]
     vals = []
     if test:
         # each symbolic value: "// <decimal>\n vec![bytes]"
